@@ -208,20 +208,49 @@ func genBlob(t *rapid.T, label string, maxLen int) []byte {
 
 // ---- goroutine quiescence ---------------------------------------------------
 
-// waitGoroutines waits until the number of goroutines is at most base.
-func waitGoroutines(base int, timeout time.Duration) bool {
+// serfWorkMarks are the entry functions of the short-lived goroutines serf
+// starts in reaction to network input (internal query handlers, refutes, name
+// conflict resolution).
+var serfWorkMarks = [][]byte{
+	[]byte("serf.(*serfQueries).handle"),
+	[]byte("serf.(*Serf).broadcastJoin"),
+	[]byte("serf.(*Serf).resolveNodeConflict"),
+	[]byte("serf.(*Serf).handleNodeConflict"),
+}
+
+func serfWorkRunning() bool {
+	buf := make([]byte, 1<<17)
+	for {
+		n := runtime.Stack(buf, true)
+		if n < len(buf) {
+			buf = buf[:n]
+			break
+		}
+		buf = make([]byte, 2*len(buf))
+	}
+	for _, m := range serfWorkMarks {
+		if bytes.Contains(buf, m) {
+			return true
+		}
+	}
+	return false
+}
+
+// waitSerfWork waits until no goroutine of the process is inside one of
+// serf's input-triggered background functions.
+func waitSerfWork(timeout time.Duration) bool {
 	deadline := time.Now().Add(timeout)
 	for i := 0; ; i++ {
-		if runtime.NumGoroutine() <= base {
+		if !serfWorkRunning() {
 			return true
 		}
 		if time.Now().After(deadline) {
 			return false
 		}
-		if i < 50 {
+		if i < 20 {
 			runtime.Gosched()
 		} else {
-			time.Sleep(100 * time.Microsecond)
+			time.Sleep(200 * time.Microsecond)
 		}
 	}
 }
